@@ -57,29 +57,14 @@ Theorem C14_no_strategy_conflict_raises : forall frepr cf fuel o deep sdir ddir 
 Proof. exact ws_no_strategy_raises. Qed.
 Print Assumptions C14_no_strategy_conflict_raises.
 
-(* bykey_overwrite_only_selected — FULL statement: for every source / destination document, prefix, dry or
-   real, any outcome: a key whose values differ and are not both mappings keeps its value unless the key
-   strategy selects its full dotted name (CorrC14.only_selected).  It holds for the repaired recursion ... *)
-Theorem C14_bykey_overwrite_only_selected : forall cf ks, fix_root cf = true ->
-  forall sv, wf sv = true -> forall dv root dry sk,
-    only_selected ks root sv dv (fst (fst (bykey cf ks sv dv root dry sk))) = true.
-Proof. exact bykey_only_selected. Qed.
+(* bykey_overwrite_only_selected — FULL, for /repo as it is (cfg_current; repair 7de64dd passes root + key + "."):
+   for every source / destination document, prefix, dry or real, any outcome, any nesting depth: a key whose
+   values differ and are not both mappings keeps its value unless the key strategy selects its full dotted name
+   (CorrC14.only_selected).  The former depth-3 counterexample is corpus/C14/w1 (C13_former_counterexamples_hold) *)
+Theorem C14_bykey_overwrite_only_selected : forall ks sv, wf sv = true -> forall dv root dry sk,
+  only_selected ks root sv dv (fst (fst (bykey cfg_current ks sv dv root dry sk))) = true.
+Proof. exact bykey_only_selected_current. Qed.
 Print Assumptions C14_bykey_overwrite_only_selected.
-
-(* ... for /repo as it is (any switches) it is proved for source documents nested at most two levels deep;
-   missing: depth >= 3, where ByKey passes key + "." instead of root + key + "." *)
-Theorem C14_bykey_overwrite_only_selected_partial : forall cf ks sv, wf sv = true -> nest_le2 sv = true ->
-  forall dv dry sk, only_selected ks [] sv dv (fst (fst (bykey cf ks sv dv [] dry sk))) = true.
-Proof. exact bykey_only_selected_le2. Qed.
-Print Assumptions C14_bykey_overwrite_only_selected_partial.
-
-(* ... and it is false at depth 3: {"a":{"b":{"c":1}}} into {"a":{"b":{"c":2}}} with a key strategy that
-   accepts only "b.c" overwrites a.b.c (corpus/C14/w1, replayed on the real code in every run) *)
-Theorem C14_bykey_overwrite_only_selected_refuted :
-  exists i, docs_ok nofl i (c_obs (model_case nofl cfg_current i)) = false
-            /\ docs_ok nofl i (c_obs (model_case nofl cfg_fixed i)) = true.
-Proof. exists wit_C14_w1. exact w1_C14_facts. Qed.
-Print Assumptions C14_bykey_overwrite_only_selected_refuted.
 
 (* update_overwrites_all *)
 Theorem C14_update_overwrites_all : forall sdoc ddoc k v, NoDup (map fst sdoc) -> In (k, v) sdoc ->
@@ -136,8 +121,8 @@ Print Assumptions C14_model_holds.
 (* non-vacuity: a conflicting pair on which the model overwrites exactly the selected file and rolls a
    conflicting document back (corpus/C14 witnesses w2 / w1 under the repaired configuration) *)
 Example C14_example :
-  holds_C14 nofl (model_case nofl cfg_fixed wit_C14_w1) = true
-  /\ ob_exn (c_obs (model_case nofl cfg_fixed wit_C14_w1)) = None
+  holds_C14 nofl (model_case nofl cfg_current wit_C14_w1) = true
+  /\ ob_exn (c_obs (model_case nofl cfg_current wit_C14_w1)) = None
   /\ wf (JObj [([97%N], JObj [([98%N], JObj [([99%N], JInt 1)])])]) = true
   /\ nest_le2 (JObj [([97%N], JObj [([98%N], JInt 1)])]) = true.
 Proof. vm_compute. repeat split. Qed.
